@@ -177,6 +177,7 @@ class Interp(object):
     self.writes = []                          # (obj, field) log for loop frame checks
     self.ext = {}                             # harness extension points (float_of_str, ...)
     self.call_stack = []
+    self.class_attr_values = {}
     self.label_prefix = ''
     from . import builtins as B
     B.install(self)
@@ -399,7 +400,12 @@ class Interp(object):
       if isinstance(c, ExcClass):
         continue
       if name in c.attrs:
-        return self.eval(c.attrs[name], Frame(None, self.env(c.module)))
+        # a class-level attribute is evaluated once per interpreter (= per process): a mutable one
+        # (a class-level dict used as a cache, say) is shared by all later accesses
+        key = (c.module, c.name, getattr(c, 'ordinal', 0), name)
+        if key not in self.class_attr_values:
+          self.class_attr_values[key] = self.eval(c.attrs[name], Frame(None, self.env(c.module)))
+        return self.class_attr_values[key]
     raise KeyError(name)
 
   # ------------------------------------------------------------------------------------------
